@@ -294,6 +294,42 @@ def run(ctx, model_available=True):
                     failures.append({"kind": "oracle", "sig": "C18:reconnect", "desc": f"connect / disconnect / connect / disconnect on one MQTTClient raised {type(e).__name__}: {e}", "case": {}})
             d.add(f"MQL {len(evs)} " + " ".join("E" if e[0] == "E" else f"M {enc_str(e[1])} {enc_bytes(e[2])}" for e in evs))
             exp.append(("l", evs, "".join((f"L {len(w[2:])}:{w[2:]}" if w.startswith("L ") else w) + "|" for w in want)))
+        # two transports side by side: what arrives for one is read from that one only
+        for _ in range(ctx.budget(6, 40)):
+            dist["two_client_runs"] = dist.get("two_client_runs", 0) + 1
+            ca = mqtt_mod.MQTTClient("broker", 1883, in_prefix="ga-out", out_prefix="ga-in")
+            cb = mqtt_mod.MQTTClient("broker", 1883, in_prefix="gb-out", out_prefix="gb-in")
+            try:
+                loop.run_until_complete(ca.connect())
+                fa = FakeAioMqtt.instances[-1]
+                loop.run_until_complete(cb.connect())
+                fb = FakeAioMqtt.instances[-1]
+                na, nb = rng.randint(1, 3), rng.randint(0, 2)
+                for k in range(na):
+                    fa.q.put_nowait(FakeMessage(f"ga-out/1/2/1/0/{k}", b"a"))
+                for k in range(nb):
+                    fb.q.put_nowait(FakeMessage(f"gb-out/9/8/1/0/{k}", b"b"))
+                spin(loop, 12)
+                got = {"a": [], "b": []}
+                for name, cl2, cnt in (("b", cb, nb + 1), ("a", ca, na + 1)):
+                    for _k in range(cnt):
+                        task = loop.create_task(cl2.read())
+                        spin(loop, 4)
+                        if task.done() and task.exception() is None:
+                            got[name].append(task.result())
+                        else:
+                            task.cancel()
+                            spin(loop, 2)
+                            break
+                want = {"a": [f"1;2;1;0;{k};a" for k in range(na)], "b": [f"9;8;1;0;{k};b" for k in range(nb)]}
+                if got != want:
+                    failures.append({"kind": "oracle", "sig": "C18:two-clients",
+                                     "desc": f"two MQTT clients side by side: broker delivered {want['a']} to A and {want['b']} to B; A's reads gave {got['a']}, B's reads gave {got['b']}",
+                                     "case": {"a": na, "b": nb}})
+                loop.run_until_complete(ca.disconnect())
+                loop.run_until_complete(cb.disconnect())
+            except BaseException as e:  # noqa: BLE001
+                failures.append({"kind": "oracle", "sig": "C18:two-clients", "desc": f"two MQTT clients side by side raised {type(e).__name__}: {e}", "case": {}})
     finally:
         mqtt_mod.AsyncioClient = orig
         FakeAioMqtt.instances.clear()
